@@ -25,7 +25,8 @@ Variable gadd : G -> G -> G.
 
 (* network.ServerIdentity: the (deprecated, but compared by Roster.Search) ID
    field, the public key, the per-service public keys *)
-Record server := mkSrv { s_id : nat; s_key : G; s_svc : list G }.
+(* s_nokey: the Public field is nil (it is optional on the wire); s_key is then meaningless *)
+Record server := mkSrv { s_id : nat; s_key : G; s_svc : list G; s_nokey : bool }.
 
 (* onet.Roster: the ID FIELD (never recomputed by a receiver) and the list *)
 Record roster := mkRo { r_id : nat; r_list : list server }.
@@ -78,13 +79,15 @@ Definition search (ro : roster) (sid : nat) : option (nat * server) :=
   search_from (r_list ro) sid 0.
 
 (* TreeMarshal.MakeTreeFromList: the node gets the roster's entry and ITS index;
-   the first failing lookup (pre-order) aborts with an error *)
+   the first failing lookup (pre-order) -- no member with that id, or a member without
+   public key -- aborts with an error *)
 Fixpoint rebuild (l : list server) (m : tmarshal) : option tnode :=
   match m with
   | TM nid _ sid _ ch =>
       match search_from l sid 0 with
       | None => None
       | Some (i, e) =>
+          if s_nokey e then None else          (* "roster member without public key" *)
           match (fix go (cs : list tmarshal) : option (list tnode) :=
                    match cs with
                    | [] => Some []
@@ -205,6 +208,7 @@ Arguments mkSrv {G}.
 Arguments s_id {G}.
 Arguments s_key {G}.
 Arguments s_svc {G}.
+Arguments s_nokey {G}.
 Arguments mkRo {G}.
 Arguments r_id {G}.
 Arguments r_list {G}.
